@@ -20,10 +20,10 @@ import (
 type Kind int
 
 const (
-	Pure Kind = iota // int-valued, no I/O, int parameters
-	Proc             // arbitrary tail statement; only called for effect
-	Gen              // yields ints; int parameters
-	Maker            // returns a closure of one int argument
+	Pure  Kind = iota // int-valued, no I/O, int parameters
+	Proc              // arbitrary tail statement; only called for effect
+	Gen               // yields ints; int parameters
+	Maker             // returns a closure of one int argument
 )
 
 // Def is one global function definition (a complete top-level statement).
@@ -50,10 +50,10 @@ type G struct {
 	// Pre holds helper definitions that must be submitted before the next definition.
 	Pre []string
 	// NeedDeep is set when a generated body calls the prelude's deep().
-	NeedDeep bool
+	NeedDeep      bool
 	nFn, nGn, nWr int
-	Feat map[string]int
-	evt  int
+	Feat          map[string]int
+	evt           int
 }
 
 // New returns a generator.
